@@ -18,6 +18,7 @@
 
 // std
 #include <queue>
+#include <mutex>
 #include <atomic>
 
 // romea
@@ -47,6 +48,7 @@ public:
   bool timeout(const Duration & duration);
 
 private:
+  mutable std::mutex mutex_;
   size_t windowSize_;
 
   Duration lastPeriod_;
